@@ -15,6 +15,8 @@
    PART B  the single-regularization path of AbstractInversion.curvature_reg_matrix (in-place `+=` into the
            cached curvature_matrix, entry deleted) and the preloaded curvature matrix (copy.copy).
    PART C  seeded noise: setup_random_seed / poisson_noise_via_data_eps_from over an abstract generator.
+   The policy [faithful] follows /repo with the repairs fixes/C11_*.diff applied (D7, D9 committed; D10, D11, D12 proposed):
+   only D8 (MapperValued.values_masked writes the caller's values; pinned by a test) remains.
    Pure numerics (what a quantity's value is, as a function of the object's contents) are a parameter
    [qf] of the machine: the theorems hold for every [qf]; the correspondence run instantiates it with
    a table observed on freshly built, never-read twins. *)
@@ -94,6 +96,22 @@ Fixpoint matvec_aux (v0 v : arr) (acc : Z) (a : arr) : arr :=
   end.
 Definition matvec (a v : arr) : arr := match a with [] => [] | _ => matvec_aux v v 0 a end.
 
+(* x * k + b with numpy broadcasting of a short factor vector over the last axis: entry i is multiplied by
+   ks[i mod length ks] (a scalar is the one-element vector; a Grid2D takes one factor per coordinate) *)
+Fixpoint cyc_affine_aux (ks0 ks : list Z) (b : Z) (a : arr) : arr :=
+  match a with
+  | [] => []
+  | x :: a' =>
+      match ks with
+      | k :: ks' => (x * k + b) :: cyc_affine_aux ks0 ks' b a'
+      | [] => match ks0 with
+              | k :: ks' => (x * k + b) :: cyc_affine_aux ks0 ks' b a'
+              | [] => (x + b) :: cyc_affine_aux ks0 [] b a'
+              end
+      end
+  end.
+Definition cyc_affine (ks : list Z) (b : Z) (a : arr) : arr := cyc_affine_aux ks ks b a.
+
 (* ------------------------------------------------------------------ PART A: machine *)
 Record obj := mkObj { o_cell : cell; o_mask : list bool; o_native : bool; o_cache : list (nat * cell) }.
 Record state := mkState { st_heap : heap; st_inputs : list cell; st_objs : list obj }.
@@ -108,8 +126,10 @@ Record policy := mkPolicy {
   p_maprecon_copies : bool;          (* mapped_reconstructed_image_from: `mapping_matrix = mapping_matrix.copy()`  (D9) *)
   p_interf_mutates_settings : bool   (* inversion_interferometer_from: `settings.use_w_tilde = False`              (D12) *)
 }.
-(* the code of /repo today: D7 and D9 repaired, D8 D10 D11 D12 present *)
-Definition faithful : policy := mkPolicy true true true true true true.
+(* the code of /repo with fixes/C11_*.diff: D7 D9 D10 D11 D12 repaired, D8 present (pinned by a test) *)
+Definition faithful : policy := mkPolicy true false false true true false.
+(* the code before the repairs *)
+Definition unrepaired : policy := mkPolicy false true true true false true.
 Definition disciplined : policy := mkPolicy true false false false true false.
 Definition safe (p : policy) : bool :=
   p_construct_copies p && negb (p_derive_keeps_cache p) && negb (p_trim_keeps_cache p)
@@ -123,7 +143,7 @@ Inductive op :=
 | OConstruct (s : src) (mask : list bool) (is_native store_native : bool)
                                                    (* Array2D / Grid2D / VectorYX2D / Kernel2D (values=s, mask=mask, store_native) *)
 | OAlias (j : nat)                                 (* Imaging(data=x): the reference is stored *)
-| OArith (j : nat) (k : Z)                         (* x * k : with_new_array(self._array * k) *)
+| OArith (j : nat) (ks : list Z) (b : Z)           (* x * k + b, -x, b - x, mask.invert() : with_new_array(f(self._array)) *)
 | OSlice (j : nat) (keep : list bool)              (* x[a:b] : with_new_array(self._array[item]) *)
 | OCopy (j : nat)                                  (* x.copy() *)
 | OTrim (j : nat) (keep : list bool)               (* dataset.trimmed_after_convolution_from *)
@@ -232,10 +252,10 @@ Definition step (qf : qfn) (p : policy) (st : state) (o : op) : state * obs * ef
       | Some ob => (mkState h (st_inputs st) (st_objs st ++ [mkObj (o_cell ob) (o_mask ob) (o_native ob) []]),
                     Ok (hget h (o_cell ob)), eff0)
       end
-  | OArith j k =>
+  | OArith j ks b =>
       match nth_error (st_objs st) j with
       | None => (st, bad, eff0)
-      | Some ob => derive st ob (map (fun x => x * k) (hget h (o_cell ob))) (o_mask ob) (p_derive_keeps_cache p) true
+      | Some ob => derive st ob (cyc_affine ks b (hget h (o_cell ob))) (o_mask ob) (p_derive_keeps_cache p) true
       end
   | OSlice j keep =>
       match nth_error (st_objs st) j with
@@ -336,19 +356,23 @@ Definition observations (qf : qfn) (p : policy) (ops : list op) : list obs := fs
 Definition run_ok (qf : qfn) (p : policy) (ops : list op) : bool := snd (fst (run qf p st0 ops)).
 Definition final (qf : qfn) (p : policy) (ops : list op) : state := snd (run qf p st0 ops).
 
-(* the input classes in which today's code leaves the discipline (the recorded findings D8, D10, D11, D12):
-   evaluated on the state BEFORE the step *)
+(* the input class in which today's code leaves the discipline (the recorded finding D8), evaluated on the state
+   BEFORE the step; [unrepaired_class] is the larger class of the code before the repairs D10, D11, D12 *)
 Definition cache_nonempty (st : state) (j : nat) : bool :=
   match nth_error (st_objs st) j with Some ob => negb (is_nil (o_cache ob)) | None => false end.
 Definition mask_any (st : state) (j : nat) : bool :=
   match nth_error (st_objs st) j with Some ob => any_true (o_mask ob) | None => false end.
 Definition finding_class (st : state) (o : op) : bool :=
   match o with
-  | OArith j _ | OSlice j _ => cache_nonempty st j        (* D10: derivation after a cached_property read *)
-  | OTrim j _ => cache_nonempty st j                       (* D11: trimming after grids / convolver / w_tilde was read *)
   | OValuesMasked j | OMapRecon j _ _ => mask_any st j     (* D8: a mesh_pixel_mask with a True entry *)
-  | OInterf _ => true                                      (* D12: any interferometer inversion *)
   | _ => false
+  end.
+Definition unrepaired_class (st : state) (o : op) : bool :=
+  match o with
+  | OArith j _ _ | OSlice j _ => cache_nonempty st j       (* D10: derivation after a cached_property read *)
+  | OTrim j _ => cache_nonempty st j                       (* D11: trimming after grids / convolver / w_tilde was read *)
+  | OInterf _ => true                                      (* D12: any interferometer inversion *)
+  | _ => finding_class st o
   end.
 Fixpoint run_avoids (qf : qfn) (p : policy) (st : state) (ops : list op) : bool :=
   match ops with
@@ -388,10 +412,10 @@ Definition sstep (qf : qfn) (sp : sstate) (o : op) : sstate * obs :=
       | None => (sp, bad)
       | Some so => (newobj so, Ok (so_val so))
       end
-  | OArith j k =>
+  | OArith j ks b =>
       match nth_error (sp_objs sp) j with
       | None => (sp, bad)
-      | Some so => let v := map (fun x => x * k) (so_val so) in (newobj (mkSObj v (so_mask so) (so_native so)), Ok v)
+      | Some so => let v := cyc_affine ks b (so_val so) in (newobj (mkSObj v (so_mask so) (so_native so)), Ok v)
       end
   | OSlice j keep =>
       match nth_error (sp_objs sp) j with
@@ -545,23 +569,130 @@ Fixpoint qlookup (t : qtable) (q : nat) (m : list bool) (a : arr) : arr :=
   | (q', m', a', v) :: t' => if Nat.eqb q q' && mask_eqb m m' && arr_eqb a a' then v else qlookup t' q m a
   end.
 
+(* what the run on the real objects reports besides the value every operation returned:
+   - after each step, the NAMES (caller input i / array of object j / cached value q of object j) that existed before
+     the step and whose contents are different after it, with the new contents (byte-level comparison);
+   - at the end, the contents of every caller input, of every object's array and of every cached value. *)
+Inductive name := NIn (i : nat) | NArr (j : nat) | NCache (j q : nat).
+Definition name_eqb (a b : name) : bool :=
+  match a, b with
+  | NIn i, NIn i' => Nat.eqb i i'
+  | NArr j, NArr j' => Nat.eqb j j'
+  | NCache j q, NCache j' q' => Nat.eqb j j' && Nat.eqb q q'
+  | _, _ => false
+  end.
+Definition change := (name * arr)%type.
+Definition snap := (list arr * list (arr * list (nat * arr)))%type.
+
+Fixpoint insert_q {A} (x : nat * A) (l : list (nat * A)) : list (nat * A) :=
+  match l with
+  | [] => [x]
+  | y :: t => if Nat.leb (fst x) (fst y) then x :: l else y :: insert_q x t
+  end.
+Definition sort_q {A} (l : list (nat * A)) : list (nat * A) := fold_right insert_q [] l.
+
+Definition cache_contents (h : heap) (o : obj) : list (nat * arr) :=
+  sort_q (map (fun qc => (fst qc, hget h (snd qc))) (o_cache o)).
+Definition snapshot (st : state) : snap :=
+  (map (hget (st_heap st)) (st_inputs st),
+   map (fun o => (hget (st_heap st) (o_cell o), cache_contents (st_heap st) o)) (st_objs st)).
+
+Fixpoint indexed {A} (i : nat) (l : list A) : list (nat * A) :=
+  match l with [] => [] | x :: t => (i, x) :: indexed (S i) t end.
+(* the names bound before the step (state [st]) and what they hold after it (heap [h'], objects [objs']) *)
+Definition changes (st st' : state) : list change :=
+  let h := st_heap st in
+  let h' := st_heap st' in
+  flat_map (fun ic => if arr_eqb (hget h (snd ic)) (hget h' (snd ic)) then [] else [(NIn (fst ic), hget h' (snd ic))])
+           (indexed 0 (st_inputs st))
+  ++ flat_map (fun jo =>
+       let j := fst jo in
+       let o := snd jo in
+       match nth_error (st_objs st') j with
+       | None => []
+       | Some o' =>
+           (if arr_eqb (hget h (o_cell o)) (hget h' (o_cell o')) then [] else [(NArr j, hget h' (o_cell o'))])
+           ++ flat_map (fun qv => match assoc (fst qv) (o_cache o') with
+                                  | Some c' => if arr_eqb (snd qv) (hget h' c') then [] else [(NCache j (fst qv), hget h' c')]
+                                  | None => []
+                                  end)
+                       (cache_contents h o)
+       end) (indexed 0 (st_objs st)).
+(* the names that refer to a cell of the write set [w], in the state before the step *)
+Definition cell_mem (c : cell) (w : list cell) : bool := existsb (Nat.eqb c) w.
+Definition written_names (st : state) (w : list cell) : list name :=
+  flat_map (fun ic => if cell_mem (snd ic) w then [NIn (fst ic)] else []) (indexed 0 (st_inputs st))
+  ++ flat_map (fun jo =>
+       (if cell_mem (o_cell (snd jo)) w then [NArr (fst jo)] else [])
+       ++ flat_map (fun qc => if cell_mem (snd qc) w then [NCache (fst jo) (fst qc)] else []) (o_cache (snd jo)))
+     (indexed 0 (st_objs st)).
+Definition name_mem (n : name) (l : list name) : bool := existsb (name_eqb n) l.
+
+(* per step: observation, changed names with new contents, names the effect summary allows to change *)
+Fixpoint run_trace (qf : qfn) (p : policy) (st : state) (ops : list op) : list (obs * list change * list name) * state :=
+  match ops with
+  | [] => ([], st)
+  | o :: t =>
+      let '(st1, ob, e) := step qf p st o in
+      let '(l, st2) := run_trace qf p st1 t in
+      ((ob, changes st st1, written_names st (e_writes e)) :: l, st2)
+  end.
+
 Inductive case :=
-  (* a history run on the real objects, with what every operation returned *)
-| KHist (t : qtable) (ops : list op) (out : list obs)
+  (* a history run on the real objects: what every operation returned, which existing names changed at each step,
+     and the final contents of everything *)
+| KHist (t : qtable) (ops : list op) (out : list (obs * list change)) (fin : snap)
   (* reads of curvature_matrix / curvature_reg_matrix / the preload on a real inversion
   (F, H, FR: curvature_matrix, regularization_matrix, curvature_reg_matrix of a never-read twin, as bit patterns) *)
-| KInv (preload : bool) (F H FR : arr) (qs : list iq) (out : list arr).
+| KInv (preload : bool) (F H FR : arr) (qs : list iq) (out : list arr)
+  (* SimulatorImaging(noise_seed=seed).via_image_from repeated under different global RNG states: the noisy images *)
+| KSeed (seed : Z) (outs : list arr).
 
 Definition obs_eqb := res_eqb arr_eqb.
+Fixpoint all2 {A B} (f : A -> B -> bool) (l1 : list A) (l2 : list B) : bool :=
+  match l1, l2 with
+  | [], [] => true
+  | x :: t1, y :: t2 => f x y && all2 f t1 t2
+  | _, _ => false
+  end.
+Definition change_eqb : change -> change -> bool := prod_eqb name_eqb arr_eqb.
+Definition cache_eqb : list (nat * arr) -> list (nat * arr) -> bool := list_eqb (prod_eqb Nat.eqb arr_eqb).
+Definition snap_eqb : snap -> snap -> bool := prod_eqb (list_eqb arr_eqb) (list_eqb (prod_eqb arr_eqb cache_eqb)).
 Definition add_tbl (F H FR : arr) : adder := fun a b => if arr_eqb a F && arr_eqb b H then FR else [].
+Fixpoint all_equal (l : list arr) : bool :=
+  match l with
+  | x :: ((y :: _) as t) => arr_eqb x y && all_equal t
+  | _ => true
+  end.
+
+(* model = implementation: same observations, same changed names with the same new contents, every changed name is in
+   the write set of the step's effect summary, same final contents *)
 Definition agree (k : case) : bool :=
   match k with
-  | KHist t ops out => list_eqb obs_eqb (observations (qlookup t) faithful ops) out
+  | KHist t ops out fin =>
+      let '(tr, st) := run_trace (qlookup t) faithful st0 ops in
+      all2 (fun m i => obs_eqb (fst (fst m)) (fst i)
+                           && list_eqb change_eqb (snd (fst m)) (snd i)
+                           && forallb (fun ch => name_mem (fst ch) (snd m)) (snd i)) tr out
+      && snap_eqb (snapshot st) fin
   | KInv preload F H FR qs out => list_eqb arr_eqb (irun (add_tbl F H FR) ifaithful preload F H (ist0 F) qs) out
+  | KSeed seed outs => (seed =? -1) || all_equal outs
   end.
+(* the value semantics accepts what the implementation did: its observations, NO existing name ever changes, the
+   final contents of inputs and objects are the specification's, and every cached value is the pure function of its
+   object's contents.  Does not call the machine. *)
+Definition spec_snap_ok (qf : qfn) (sp : sstate) (fin : snap) : bool :=
+  list_eqb arr_eqb (sp_inputs sp) (fst fin)
+  && all2 (fun so oc => arr_eqb (so_val so) (fst oc)
+                            && forallb (fun qv => arr_eqb (qf (fst qv) (so_mask so) (so_val so)) (snd qv)) (snd oc))
+              (sp_objs sp) (snd fin).
 Definition spec_ok (k : case) : bool :=
   match k with
-  | KHist t ops out => list_eqb obs_eqb (spec_observations (qlookup t) ops) out
+  | KHist t ops out fin =>
+      let '(l, sp) := srun (qlookup t) sst0 ops in
+      all2 (fun s i => obs_eqb s (fst i) && is_nil (snd i)) l out
+      && spec_snap_ok (qlookup t) sp fin
   | KInv preload F H FR qs out => list_eqb arr_eqb (map (ispec (add_tbl F H FR) F H) qs) out
+  | KSeed seed outs => (seed =? -1) || all_equal outs
   end.
 Definition check (k : case) : nat := verdict (agree k) (spec_ok k).
